@@ -207,24 +207,33 @@ let rec list_eq a b = match a, b with
   | [], [] -> true | x :: a, y :: b -> int_of_n x = int_of_n y && list_eq a b | _ -> false
 
 (* stable class labels, computed from the failing block itself *)
+(* DESIGN section 5 #3: the jump of a short-circuit assignment skips SetNameByLocator.  The two binding stacks differ exactly
+   by surplus references (anywhere in the stack: later assignments push on top of a leaked one), each pushed by a
+   GetNameAndLocator that is immediately followed by LogicalAnd / LogicalOr / Coalesce *)
+let leaked_by_short_circuit (cb : codeblock) (a : n list) (b : n list) : bool =
+  let longer, shorter = if List.length a > List.length b then a, b else b, a in
+  (* remove `shorter` from `longer` as a subsequence; what is left are the surplus references *)
+  let rec diff l s acc = match l, s with
+    | [], [] -> Some (List.rev acc)
+    | [], _ :: _ -> None
+    | x :: l', y :: s' when int_of_n x = int_of_n y -> diff l' s' acc
+    | x :: l', _ -> diff l' s (x :: acc) in
+  match diff longer shorter [] with
+  | Some (_ :: _ as extras) ->
+      List.for_all (fun g ->
+          match find_instr cb g with
+          | Some gi when gi.i_op = Op_GetNameAndLocator ->
+              (match find_instr cb gi.i_next with Some si -> is_short_circuit si.i_op | None -> false)
+          | _ -> false) extras
+  | _ -> false
+
 let classify_merge ?(flags = 0) (cb : codeblock) (e : edge) (pc : int) (have : depth) (want : depth) : Stdlib.String.t =
   let env_eq = int_of_n have.d_env = int_of_n want.d_env in
   let stk_eq = int_of_n have.d_stk = int_of_n want.d_stk in
   let bind_eq = list_eq have.d_bind want.d_bind in
   (* DESIGN section 5 #3: the jump of a short-circuit assignment skips SetNameByLocator: one side carries one extra
      reference pushed by a GetNameAndLocator that is immediately followed by LogicalAnd/LogicalOr/Coalesce -> pc *)
-  let short_circuit_leak () =
-    let longer, shorter =
-      if List.length have.d_bind > List.length want.d_bind then have.d_bind, want.d_bind else want.d_bind, have.d_bind in
-    match longer with
-    | g :: rest when list_eq rest shorter ->
-        (match find_instr cb g with
-         | Some gi when gi.i_op = Op_GetNameAndLocator ->
-             (match find_instr cb gi.i_next with
-              | Some si when is_short_circuit si.i_op -> true     (* the merge may surface later than the jump target when selectors differ there *)
-              | _ -> false)
-         | _ -> false)
-    | _ -> false in
+  let short_circuit_leak () = leaked_by_short_circuit cb have.d_bind want.d_bind in
   (* the handler that covers the body of an async function lands on the epilogue (MaybeException; resolve/reject the
      promise; Return) into which normal completion also falls, with whatever environments/values are still open *)
   let async_epilogue () =
@@ -597,7 +606,8 @@ let verify_block (b : blk) : vblk =
               | Some d when List.length !errs < 60 ->
                   let what = if int_of_n d0.d2_base.d_env <> int_of_n d.d2_base.d_env then "environment"
                     else if not (list_eq d0.d2_base.d_bind d.d2_base.d_bind) then "binding" else "iterator" in
-                  add (what ^ "-depth-differs-across-completions")
+                  add (if what = "binding" && leaked_by_short_circuit cb d0.d2_base.d_bind d.d2_base.d_bind
+                       then "short-circuit-assign-locator-leak" else what ^ "-depth-differs-across-completions")
                     (Printf.sprintf "%spc=%d %s reached with %s and %s" src (int_of_n i.i_pc) (opname i.i_op) (show_depth2 d0) (show_depth2 d))
               | _ -> ())
          | [] -> ())) b.ins in
